@@ -74,6 +74,8 @@ where
         index: SearchIndex,
         handler: &mut Handler,
     ) -> Result<bool, DbError> {
+        self.graph.validate_bounds(index.index)?;
+
         if !self.visit_index(&index) {
             self.process_unvisited_index(index, handler)
         } else {
